@@ -1,5 +1,6 @@
 import SFV.Model.MeasureSample
 import SFV.Proofs.FockTensor
+import SFV.Proofs.GaussNM
 import SFV.Proofs.MeasureDiscrete
 import Mathlib.Algebra.Order.Field.Basic
 import Mathlib.Algebra.BigOperators.Group.List.Basic
@@ -224,6 +225,55 @@ theorem bornProb_nil (D n : Nat) (ρ : Tens K) : bornProb D n ρ [] = traceOver 
 
 end fock
 
+/-! ### Gaussian back end: index computation of the photon-counting / threshold path -/
+
+section discrete
+open SFV.Gauss
+variable {K : Type} [CommRing K]
+
+/-- the quadrature a position of the sampler's argument must describe: `x` of `modes[j]` for `j < k`, then `p` -/
+def discreteLabel (modes : List Nat) (j : Nat) : Q :=
+  if j < modes.length then ((modes.getD j 0, false) : Q) else ((modes.getD (j - modes.length) 0, true) : Q)
+
+theorem discreteIdxs_x (nlen : Nat) (modes : List Nat) (j : Nat) (hj : j < modes.length) :
+    (discreteIdxs nlen modes).getD j 0 = modes.getD j 0 := by
+  unfold discreteIdxs
+  rw [List.getD_eq_getElem?_getD, List.getD_eq_getElem?_getD, List.getElem?_append_left hj]
+
+theorem discreteIdxs_p (nlen : Nat) (modes : List Nat) (j : Nat) (hj : j < modes.length) :
+    (discreteIdxs nlen modes).getD (modes.length + j) 0 = modes.getD j 0 + nlen := by
+  unfold discreteIdxs
+  rw [List.getD_eq_getElem?_getD, List.getD_eq_getElem?_getD,
+    List.getElem?_append_right (Nat.le_add_right _ _)]
+  simp [List.getElem?_map, List.getElem?_eq_getElem hj]
+
+/-- **the samplers receive exactly the measured modes' quadratures**, for every array size `st.n` (live or deleted
+rows alike) and every list of modes below it, in the order listed -/
+theorem gaussDiscreteArgs_spec (st : GS K) (modes : List Nat) (hlt : ∀ m ∈ modes, m < st.n) (a b : Nat)
+    (ha : a < 2 * modes.length) (hb : b < 2 * modes.length) :
+    (gaussDiscreteArgs st modes).cov a b = (toXP st).cov (discreteLabel modes a) (discreteLabel modes b) ∧
+    (gaussDiscreteArgs st modes).mean a = (toXP st).mean (discreteLabel modes a) := by
+  have key : ∀ j, j < 2 * modes.length →
+      (j < modes.length ∧ (discreteIdxs st.n modes).getD j 0 = modes.getD j 0 ∧ modes.getD j 0 < st.n) ∨
+      (¬ j < modes.length ∧ (discreteIdxs st.n modes).getD j 0 = modes.getD (j - modes.length) 0 + st.n ∧
+        modes.getD (j - modes.length) 0 < st.n) := by
+    intro j hj
+    by_cases h : j < modes.length
+    · refine Or.inl ⟨h, discreteIdxs_x _ _ _ h, ?_⟩
+      rw [List.getD_eq_getElem?_getD, List.getElem?_eq_getElem h]; exact hlt _ (List.getElem_mem h)
+    · have h' : j - modes.length < modes.length := by omega
+      refine Or.inr ⟨h, ?_, ?_⟩
+      · have := discreteIdxs_p st.n modes (j - modes.length) h'
+        rwa [show modes.length + (j - modes.length) = j by omega] at this
+      · rw [List.getD_eq_getElem?_getD, List.getElem?_eq_getElem h']; exact hlt _ (List.getElem_mem h')
+  unfold gaussDiscreteArgs
+  simp only
+  rcases key a ha with ⟨h1, e1, l1⟩ | ⟨h1, e1, l1⟩ <;> rcases key b hb with ⟨h2, e2, l2⟩ | ⟨h2, e2, l2⟩ <;>
+    simp only [e1, e2, discreteLabel, h1, h2, if_true, if_false, scovxp, smeanxp, l1, l2, XP.cov, XP.mean, toXP,
+      Nat.add_sub_cancel, Nat.not_lt.mpr (Nat.le_add_left _ _), and_self]
+
+end discrete
+
 /-! ### bosonic rejection sampler -/
 
 section sampler
@@ -291,5 +341,185 @@ theorem accept_not_dominated (u p ub : K) (hu : u < 1) (h0 : 0 ≤ ub) (hp : ub 
   linarith
 
 end sampler
+
+end SFV.Meas
+
+/-! ### normalisation of the sampled Fock distribution as a flat list sum -/
+
+namespace SFV.Meas
+open SFV.Fock
+
+section flat
+variable {K : Type} [AddCommMonoid K]
+
+theorem sum_map_range (N : Nat) (g : Nat → K) : ((List.range N).map g).sum = sumTo N g := by
+  induction N with
+  | zero => rfl
+  | succ N ih => simp [List.range_succ, List.map_append, List.sum_append, ih, sumTo]
+
+theorem sumTo_add (a b : Nat) (f : Nat → K) : sumTo (a + b) f = sumTo a f + sumTo b fun x => f (a + x) := by
+  induction b with
+  | zero => simp [sumTo]
+  | succ b ih => rw [← Nat.add_assoc]; simp only [sumTo, ih, add_assoc]
+
+theorem sumTo_mul (N D : Nat) (f : Nat → K) :
+    sumTo (N * D) f = sumTo N fun h => sumTo D fun l => f (h * D + l) := by
+  induction N with
+  | zero => simp [sumTo]
+  | succ N ih => rw [Nat.succ_mul, sumTo_add, ih]; rfl
+
+theorem unIndex_snoc (h l k D : Nat) (hl : l < D) : unIndex (h * D + l) (k + 1) D = unIndex h k D ++ [l] := by
+  have hD : 0 < D := by omega
+  simp only [unIndex, List.range_succ, List.map_append, List.map_cons, List.map_nil]
+  congr 1
+  · apply List.map_congr_left
+    intro m hm
+    have hm' : m < k := List.mem_range.mp hm
+    have e1 : k + 1 - 1 - m = (k - 1 - m) + 1 := by omega
+    have e3 : (h * D + l) / D = h := by
+      rw [Nat.mul_comm, Nat.mul_add_div hD, Nat.div_eq_of_lt hl]; simp
+    rw [e1, pow_succ, Nat.mul_comm (D ^ _) D, ← Nat.div_div_eq_div_mul, e3]
+  · have e2 : k + 1 - 1 - k = 0 := by omega
+    rw [e2]
+    simp [Nat.mul_add_mod_of_lt hl]
+
+theorem exists_max (l : List Nat) (h : l ≠ []) : ∃ x ∈ l, ∀ y ∈ l, y ≤ x := by
+  induction l with
+  | nil => exact absurd rfl h
+  | cons a t ih =>
+    by_cases ht : t = []
+    · subst ht; exact ⟨a, by simp, by simp⟩
+    · obtain ⟨x, hx, hmax⟩ := ih ht
+      by_cases hax : x ≤ a
+      · refine ⟨a, by simp, ?_⟩
+        intro y hy
+        rcases List.mem_cons.mp hy with rfl | hy
+        · exact le_refl _
+        · exact le_trans (hmax y hy) hax
+      · refine ⟨x, List.mem_cons_of_mem _ hx, ?_⟩
+        intro y hy
+        rcases List.mem_cons.mp hy with rfl | hy
+        · omega
+        · exact hmax y hy
+
+/-- the Born probability depends on the selection only as a set of (mode, value) pairs -/
+theorem bornProb_perm (D n : Nat) (ρ : Tens K) {s1 s2 : List (Nat × Nat)} (h : s1.Perm s2)
+    (hnd : (s1.map (·.1)).Nodup) : bornProb D n ρ s1 = bornProb D n ρ s2 := by
+  have hnd2 : (s2.map (·.1)).Nodup := (h.map _).nodup_iff.mp hnd
+  have hassign : assign s1 = assign s2 := by
+    funext a
+    by_cases hm : a / 2 ∈ s1.map (·.1)
+    · obtain ⟨s, hs, hs1⟩ := List.mem_map.mp hm
+      rw [assign_of_mem s1 hnd s hs a hs1.symm, assign_of_mem s2 hnd2 s (h.mem_iff.mp hs) a hs1.symm]
+    · have hm2 : a / 2 ∉ s2.map (·.1) := fun x => hm ((h.map _).mem_iff.mpr x)
+      rw [assign_of_not_mem s1 a hm, assign_of_not_mem s2 a hm2]
+  unfold bornProb
+  rw [hassign]
+  congr 1
+  apply List.filter_congr
+  intro i _
+  have : (s1.map (·.1)).contains i = (s2.map (·.1)).contains i := by
+    rw [Bool.eq_iff_iff, List.contains_iff_mem, List.contains_iff_mem]
+    exact (h.map _).mem_iff
+  rw [this]
+
+/-- the selection read off an ascending-order outcome `p` -/
+def selOf (measure p : List Nat) : List (Nat × Nat) := measure.map fun m => (m, p.getD (rank measure m) 0)
+
+theorem selOf_modes (measure p : List Nat) : (selOf measure p).map (·.1) = measure := by
+  unfold selOf
+  rw [List.map_map]
+  exact List.map_id'' (fun _ => rfl) measure
+
+theorem rank_perm {l1 l2 : List Nat} (h : l1.Perm l2) (m : Nat) : rank l1 m = rank l2 m :=
+  (h.filter _).length_eq
+
+/-- the largest measured mode owns the last axis; removing it leaves the other ranks unchanged -/
+theorem selOf_snoc (measure : List Nat) (hnd : measure.Nodup) (mx : Nat) (hmx : mx ∈ measure)
+    (hmax : ∀ y ∈ measure, y ≤ mx) (q : List Nat) (l : Nat) (hq : q.length + 1 = measure.length) :
+    (selOf measure (q ++ [l])).Perm ((mx, l) :: selOf (measure.erase mx) q) := by
+  have hperm : measure.Perm (mx :: measure.erase mx) := List.perm_cons_erase hmx
+  have hnd' : (mx :: measure.erase mx).Nodup := hperm.nodup_iff.mp hnd
+  rw [List.nodup_cons] at hnd'
+  have hlt : ∀ y ∈ measure.erase mx, y < mx := by
+    intro y hy
+    have h1 := hmax y (List.mem_of_mem_erase hy)
+    have h2 : y ≠ mx := fun e => hnd'.1 (e ▸ hy)
+    omega
+  have hlen : (measure.erase mx).length = q.length := by
+    have := hperm.length_eq
+    simp at this
+    omega
+  have hrank_mx : rank measure mx = q.length := by
+    rw [rank_perm hperm mx]
+    unfold rank
+    rw [List.filter_cons_of_neg (by simp)]
+    rw [List.filter_eq_self.mpr (by intro y hy; simpa using hlt y hy), hlen]
+  have hrank : ∀ m ∈ measure.erase mx, rank measure m = rank (measure.erase mx) m ∧ rank (measure.erase mx) m < q.length := by
+    intro m hm
+    constructor
+    · rw [rank_perm hperm m]
+      unfold rank
+      rw [List.filter_cons_of_neg (by have := hlt m hm; simp; omega)]
+    · unfold rank
+      rw [← hlen]
+      apply List.length_filter_lt_length_iff_exists.mpr
+      exact ⟨m, hm, by simp⟩
+  unfold selOf
+  refine (hperm.map _).trans ?_
+  rw [List.map_cons]
+  have e1 : (q ++ [l]).getD (rank measure mx) 0 = l := by
+    rw [hrank_mx, List.getD_eq_getElem?_getD, List.getElem?_append_right (le_refl _)]
+    simp
+  rw [e1]
+  refine List.Perm.cons _ ?_
+  apply List.Perm.of_eq
+  apply List.map_congr_left
+  intro m hm
+  obtain ⟨h1, h2⟩ := hrank m hm
+  rw [h1, List.getD_eq_getElem?_getD, List.getElem?_append_left h2, ← List.getD_eq_getElem?_getD]
+
+/-- **normalisation as a flat list sum**: the entries of the vector `measure_fock` hands to `choice` (before the
+division) sum to the trace of the state — for every register size, cutoff and list of distinct measured modes -/
+theorem fockDist_sum (D n k : Nat) : ∀ (measure : List Nat), measure.length = k → measure.Nodup →
+    (∀ m ∈ measure, m < n) → ∀ ρ : Tens K, (fockDist D n measure ρ).sum = bornProb D n ρ [] := by
+  induction k with
+  | zero =>
+    intro measure hk _ _ ρ
+    have hm : measure = [] := List.length_eq_zero_iff.mp hk
+    subst hm
+    have := reducedDiag_eq_bornProb D n [] List.nodup_nil (by simp) ρ (unIndex 0 0 D) (by simp [unIndex])
+    simpa [fockDist] using this
+  | succ k ih =>
+    intro measure hk hnd hlt ρ
+    have hne : measure ≠ [] := by intro h; rw [h] at hk; simp at hk
+    obtain ⟨mx, hmx, hmax⟩ := exists_max measure hne
+    have hperm : measure.Perm (mx :: measure.erase mx) := List.perm_cons_erase hmx
+    have hlen' : (measure.erase mx).length = k := by
+      have := hperm.length_eq
+      simp at this
+      omega
+    have hnd' : (measure.erase mx).Nodup := hnd.erase mx
+    have hlt' : ∀ m ∈ measure.erase mx, m < n := fun m hm => hlt m (List.mem_of_mem_erase hm)
+    have hnot : mx ∉ measure.erase mx := by
+      have := hperm.nodup_iff.mp hnd
+      rw [List.nodup_cons] at this
+      exact this.1
+    unfold fockDist
+    rw [sum_map_range, hk, pow_succ, sumTo_mul]
+    rw [← ih (measure.erase mx) hlen' hnd' hlt' ρ]
+    unfold fockDist
+    rw [sum_map_range, hlen']
+    refine sumTo_congr fun h _ => ?_
+    have hq : (unIndex h k D).length = k := by simp [unIndex]
+    rw [reducedDiag_eq_bornProb D n (measure.erase mx) hnd' hlt' ρ _ (by rw [hq, hlen'])]
+    rw [← bornProb_marginal D n ρ _ mx (hlt mx hmx) (by rw [show (fun m => (m, (unIndex h k D).getD (rank (measure.erase mx) m) 0))
+      = fun m => (m, (unIndex h k D).getD (rank (measure.erase mx) m) 0) from rfl]; simpa [List.map_map, Function.comp] using hnot)]
+    refine sumTo_congr fun l hl => ?_
+    rw [unIndex_snoc h l k D hl, reducedDiag_eq_bornProb D n measure hnd hlt ρ _ (by simp [hq, hk])]
+    exact bornProb_perm D n ρ (selOf_snoc measure hnd mx hmx hmax _ l (by rw [hq, hk]))
+      (by have := selOf_modes measure (unIndex h k D ++ [l]); unfold selOf at this; rw [this]; exact hnd)
+
+end flat
 
 end SFV.Meas
